@@ -621,3 +621,141 @@ pub fn straddle_strings() -> Vec<(String, usize)> {
     }
     out
 }
+
+pub fn many_pub(texts: &[&str]) -> Vec<Value> {
+    many(texts)
+}
+
+/// The first and the last character of every UTF-8 lead byte (0xC2..=0xF4; the surrogate gap inside
+/// 0xED respected), after a few ASCII ones: a hand-written width table or a byte-wise scan is wrong for
+/// one lead byte or at one continuation-byte boundary.
+pub fn lead_byte_chars() -> Vec<char> {
+    let mut out = vec!['a', 'Z', '0', ' '];
+    for lead in 0xC2u32..=0xDF {
+        let lo = (lead & 0x1f) << 6;
+        out.push(char::from_u32(lo).unwrap());
+        out.push(char::from_u32(lo | 0x3f).unwrap());
+    }
+    for lead in 0xE0u32..=0xEF {
+        let lo = ((lead & 0x0f) << 12).max(0x800);
+        let hi = ((lead & 0x0f) << 12) | 0xfff;
+        let (lo, hi) = if lead == 0xED { (0xD000, 0xD7FF) } else { (lo, hi) };
+        out.push(char::from_u32(lo).unwrap());
+        out.push(char::from_u32(hi).unwrap());
+    }
+    for lead in 0xF0u32..=0xF4 {
+        let lo = ((lead & 0x07) << 18).max(0x10000);
+        let hi = (((lead & 0x07) << 18) | 0x3ffff).min(0x10ffff);
+        out.push(char::from_u32(lo).unwrap());
+        out.push(char::from_u32(hi).unwrap());
+    }
+    out
+}
+
+/// Pairs of *different* strings that a well-meant normalisation makes equal: line endings, Unicode
+/// normal forms, case, surrounding / inner blanks, leading zeros and signs, a trailing NUL, a byte-order
+/// mark, width variants, ligatures, invisible joiners, escapes spelled out.
+pub fn confusable_pairs() -> Vec<(String, String)> {
+    let p = |a: &str, b: &str| (a.to_string(), b.to_string());
+    vec![
+        p("a\r\nb", "a\nb"),
+        p("\r\n", "\n"),
+        p("a\rb", "a\nb"),
+        p("a\r\n", "a"),
+        p("a\n", "a"),
+        p("\u{e9}", "e\u{301}"),
+        p("\u{c5}", "\u{212b}"),
+        p("\u{1e69}", "s\u{323}\u{307}"),
+        p("\u{ac00}", "\u{1100}\u{1161}"),
+        p("a", "A"),
+        p("\u{df}", "ss"),
+        p("i", "\u{130}"),
+        p("k", "\u{212a}"),
+        p("a ", "a"),
+        p(" a", "a"),
+        p("a  b", "a b"),
+        p("a\tb", "a b"),
+        p("a\u{a0}b", "a b"),
+        p("01", "1"),
+        p("007", "7"),
+        p("+1", "1"),
+        p("-0", "0"),
+        p("1.0", "1"),
+        p("1e0", "1"),
+        p(" 1", "1"),
+        p("1 ", "1"),
+        p("a\u{0}", "a"),
+        p("\u{feff}a", "a"),
+        p("\u{ff11}", "1"),
+        p("\u{ff41}", "a"),
+        p("\u{fb01}", "fi"),
+        p("a\u{200d}b", "ab"),
+        p("a\u{200b}b", "ab"),
+        p("a\u{ad}b", "ab"),
+        p("a\\nb", "a\nb"),
+        p("a\\u0041", "aA"),
+        p("%41", "A"),
+        p("&amp;", "&"),
+        p("a/b", "a\\/b"),
+        p("\"a\"", "a"),
+        p("'a'", "a"),
+        p("null", ""),
+        p("a.b", "a\\.b"),
+        p("a..b", "a.b"),
+        p(".a", "a"),
+        p("a.", "a"),
+    ]
+}
+
+/// Integers written as digit strings, of every length 1..=40 (all nines, a one and zeros, a one-zeros-one)
+/// and exactly at / next to every machine-integer limit (2^31 .. 2^128), bare, signed and zero-padded:
+/// a conversion with an integer fast path (i32, i64, u64, u128) is wrong for the first string that does
+/// not fit, whatever its digit count suggests.
+pub fn integer_digit_strings() -> Vec<Value> {
+    let mut out: Vec<String> = Vec::new();
+    for d in 1..=40usize {
+        out.push("9".repeat(d));
+        out.push(format!("1{}", "0".repeat(d - 1)));
+        if d >= 2 {
+            out.push(format!("1{}1", "0".repeat(d - 2)));
+            out.push(format!("{}{}", "9".repeat(d - 1), "8"));
+        }
+    }
+    for k in [31u32, 32, 53, 63, 64, 65, 96, 127] {
+        let p: u128 = 1u128 << k;
+        for v in [p - 2, p - 1, p, p + 1, p + 2] {
+            out.push(v.to_string());
+        }
+    }
+    for t in ["340282366920938463463374607431768211454", "340282366920938463463374607431768211455", "340282366920938463463374607431768211456", "340282366920938463463374607431768211457",
+              "31415926535897932384", "20000000000000000000", "50000000000000000000", "18446744073709551616000", "1844674407370955161"] {
+        out.push(t.to_string());
+    }
+    let base: Vec<String> = out.clone();
+    for t in base.iter().filter(|t| t.len() >= 9) .step_by(3) {
+        out.push(format!("-{}", t));
+        out.push(format!("+{}", t));
+        out.push(format!("000{}", t));
+        out.push(format!(" {} ", t));
+        out.push(format!("{}.0", t));
+    }
+    dedup(out.into_iter().map(Value::String).collect())
+}
+
+/// Expressions with a defined value that contain an ill-formed operation (wrong operand count) in a place
+/// evaluation never reaches: behind a decided `or` / `and`, in the branch of `if` / `?:` not taken. An
+/// unreached operand is not evaluated and not validated; `x` stands for the expression deciding the
+/// short-circuit (pass `{"var": ""}` for "the current element").
+pub fn unreached_illformed(x: &Value) -> Vec<Value> {
+    let mut out = Vec::new();
+    for bad in [json!({"==": [1]}), json!({"substr": ["x"]}), json!({"map": [1]}), json!({"var": ["a", "b", "c"]}), json!({"!": [1, 2]}), json!({"reduce": [[1], 1]})] {
+        out.push(json!({"or": [{"!": [{"!": [x]}]}, true, bad]}));
+        out.push(json!({"and": [false, bad]}));
+        out.push(json!({"or": [x, "fallback", bad]}));
+        out.push(json!({"if": [true, x, bad]}));
+        out.push(json!({"if": [false, bad, x]}));
+        out.push(json!({"?:": [0, bad, "else"]}));
+        out.push(json!({"if": [x, "yes", "", bad, "no"]}));
+    }
+    out
+}
